@@ -66,7 +66,7 @@ pub fn script_name(ops: &[Op]) -> String {
 }
 
 #[derive(Clone, Copy, Debug, PartialEq)]
-pub enum Fate { Deliver, Drop, Dup, DupLate, Delay1, Delay3, Corrupt }
+pub enum Fate { Deliver, Drop, Dup, DupLate, Delay1, Delay3, Corrupt, Delay6 }
 
 pub const FATES_ALL: &[Fate] = &[Fate::Deliver, Fate::Drop, Fate::Dup, Fate::DupLate, Fate::Delay1, Fate::Delay3, Fate::Corrupt];
 pub const FATES_LOSS: &[Fate] = &[Fate::Deliver, Fate::Drop];
@@ -282,6 +282,7 @@ pub fn run_lw(cfg: &LwCfg, si: &ScriptInfo, env: &LwEnv, ch: &mut Chooser, mut i
                             Fate::DupLate => { push(round + l, f.clone(), &mut seq); push(round + l + 5, f, &mut seq); }
                             Fate::Delay1 => push(round + l + 1, f, &mut seq),
                             Fate::Delay3 => push(round + l + 3, f, &mut seq),
+                            Fate::Delay6 => push(round + l + 6, f, &mut seq),
                             Fate::Corrupt => { let mut g = f; let n = g.len(); g[n / 2] ^= 0x10; g[0] ^= 0x01; g[n - 1] ^= 0x80; if n > 7 { g[5] ^= 0x04; } push(round + l, g, &mut seq); }
                         }
                     }
